@@ -1093,5 +1093,105 @@ theorem synced_save_M {s s' : State} (h : SyncedM s) (ht : Tidy s) {tD tS : Time
 theorem synced_save {s s' : State} (h : Synced s) (ht : Tidy s) {tD tS : Time} (hr : save s tD tS = .ok s') :
     Synced s' ∧ Tidy s' := synced_save_M h.toM ht hr
 
+
+/-! ### nothing stays scheduled for deletion across a completed save -/
+
+theorem saveFS_sched (tD tS : Time) (s : State) (img : Bool) :
+    (getFS (saveFS tD tS s img) img).sched = [] ∧ getFS (saveFS tD tS s img) (!img) = getFS s (!img) := by
+  rw [saveFS_eq]
+  cases img <;> exact ⟨rfl, rfl⟩
+
+theorem get?_rebind (D : Disk) (FL : List (String × MLayer)) (ln : String) (l : MLayer)
+    (h : AL.get? (FL.map fun p => (p.1, ({ p.2 with gs := some ⟨p.1, glifNames D p.1, true⟩ } : MLayer))) ln = some l) :
+    ∃ l0, AL.get? FL ln = some l0 ∧ l.sched = l0.sched := by
+  rw [get?_map_key_val (fun k (v : MLayer) => ({ v with gs := some ⟨k, glifNames D k, true⟩ } : MLayer))] at h
+  cases hf : AL.get? FL ln with
+  | none => simp [hf] at h
+  | some l0 =>
+    simp [hf] at h
+    exact ⟨l0, rfl, by rw [← h]⟩
+
+theorem saveRest_sched {s7 s' : State} {zip hazard : Bool} {tD tS : Time} (c : SaveCore s7) (t : Tidy s7)
+    (hz : s7.zip = zip) (hi : s7.font.images.sched = []) (hd : s7.font.data.sched = [])
+    (hr : saveRest zip hazard tD tS s7 = .ok s') :
+    (∀ ln l, ln ∈ s'.font.order → getLayer s' ln = some l → l.sched = []) ∧
+      s'.font.images.sched = [] ∧ s'.font.data.sched = [] := by
+  unfold saveRest at hr
+  split at hr
+  · cases hr
+  · have e8 : ({ s7 with disk := s7.font.history.foldl applyAction s7.disk } : State) = s7 := by
+      rw [foldl_applyAction_tame (by rw [← c.default]; exact t.history)]
+    simp only [e8] at hr
+    have hall : ∀ ln, ln ∈ s7.font.order → ∃ l dl, getLayer s7 ln = some l ∧ AL.get? s7.disk.layers ln = some dl := by
+      intro ln hln
+      obtain ⟨l, dl, h1, h2, _⟩ := c.layers ln hln
+      exact ⟨l, dl, h1, h2⟩
+    obtain ⟨DL, FL, e9, kD, kF, _, hin⟩ := foldl_saveOneLayer tD tS s7.font.order c.nodupOrder s7 hall
+    rw [e9] at hr
+    simp only at hr
+    have hord : s7.font.order = AL.keys DL := by rw [kD]; exact c.order
+    have hcond : (layerNames { s7.disk with layers := DL }).all (· ∈ s7.font.order) = true := by
+      rw [List.all_eq_true]
+      intro x hx
+      have : x ∈ AL.keys DL := hx
+      rw [← hord] at this
+      simpa using this
+    rw [if_pos hcond] at hr
+    have key : ∀ (X : State), X.font.order = s7.font.order → X.font.images = s7.font.images → X.font.data = s7.font.data →
+        (∀ ln l, AL.get? X.font.layers ln = some l → ∃ l0, AL.get? FL ln = some l0 ∧ l.sched = l0.sched) →
+        (∀ ln l, ln ∈ X.font.order → getLayer X ln = some l → l.sched = []) ∧
+          X.font.images.sched = [] ∧ X.font.data.sched = [] := by
+      intro X h1 h2 h3 h4
+      refine ⟨?_, by rw [h2]; exact hi, by rw [h3]; exact hd⟩
+      intro ln l hln hl
+      rw [h1] at hln
+      obtain ⟨l0, dl0, g1, g2, _⟩ := c.layers ln hln
+      obtain ⟨g3, _⟩ := hin ln hln l0 dl0 g1 g2
+      obtain ⟨l1, g4, g5⟩ := h4 ln l hl
+      rw [g3] at g4
+      injection g4 with g4
+      rw [g5, ← g4, saveLayer_eq]
+    cases zip with
+    | false =>
+      simp only [Bool.false_eq_true, if_false] at hr
+      injection hr with hr
+      subst hr
+      exact key _ rfl rfl rfl (fun ln l hl => get?_rebind _ FL ln l hl)
+    | true =>
+      simp only [if_true] at hr
+      injection hr with hr
+      subst hr
+      exact key _ rfl rfl rfl (fun ln l hl => get?_rebind _ FL ln l hl)
+
+theorem save_sched {s s' : State} (h : SyncedM s) (ht : Tidy s) {tD tS : Time} (hr : save s tD tS = .ok s') :
+    (∀ ln l, ln ∈ s'.font.order → getLayer s' ln = some l → l.sched = []) ∧
+      s'.font.images.sched = [] ∧ s'.font.data.sched = [] := by
+  rw [save_eq] at hr
+  have c1 := core_savePart h.core tD tS true .info
+  have t1 := tidy_savePart ht tD tS true .info
+  have c2 := core_savePart c1 tD tS true .groups
+  have t2 := tidy_savePart t1 tD tS true .groups
+  have c3 := core_savePart c2 tD tS false .kerning
+  have t3 := tidy_savePart t2 tD tS false .kerning
+  have c4 := core_savePart c3 tD tS true .lib
+  have t4 := tidy_savePart t3 tD tS true .lib
+  have c5 := core_savePart c4 tD tS false .features
+  have t5 := tidy_savePart t4 tD tS false .features
+  obtain ⟨c6, t6⟩ := core_saveFS c5 t5 tD tS true
+  obtain ⟨c7, t7⟩ := core_saveFS c6 t6 tD tS false
+  refine saveRest_sched c7 t7 ?_ ?_ ?_ hr
+  · simp only [saveFS_zip, savePart_zip]
+  · have a := (saveFS_sched tD tS (saveFS tD tS (savePart tD tS false (savePart tD tS true (savePart tD tS false
+        (savePart tD tS true (savePart tD tS true s .info) .groups) .kerning) .lib) .features) true) false).2
+    have b := (saveFS_sched tD tS (savePart tD tS false (savePart tD tS true (savePart tD tS false
+        (savePart tD tS true (savePart tD tS true s .info) .groups) .kerning) .lib) .features) true).1
+    have a' : (saveFS tD tS (saveFS tD tS (savePart tD tS false (savePart tD tS true (savePart tD tS false
+        (savePart tD tS true (savePart tD tS true s .info) .groups) .kerning) .lib) .features) true) false).font.images =
+        (saveFS tD tS (savePart tD tS false (savePart tD tS true (savePart tD tS false
+        (savePart tD tS true (savePart tD tS true s .info) .groups) .kerning) .lib) .features) true).font.images := a
+    rw [a']
+    exact b
+  · exact (saveFS_sched tD tS _ false).1
+
 end Ext
 end DefconModel
